@@ -8,6 +8,10 @@ import enum
 from flat import _import_transitions
 
 UNKNOWN = 'zz_unknown'
+import os
+# get_triggers(<nested State object>) resolves the object by its local name on the unrepaired library (round-8
+# report (ii)); switch on once repaired
+STATE_OBJECTS = os.environ.get('VERIF_C11_STATEOBJ') == '1'
 SEGS = ['A', 'B', 'C', 'P', 'x', 'y', '1', '2', 'u']
 
 
@@ -420,6 +424,10 @@ def impl(case):
                         bad.append([sx_str('enum source ' + name), [sx_str(e)]])
                     if list(map(id, machine.get_transitions(e, dest=mem))) != list(map(id, machine.get_transitions(e, dest=name))):
                         bad.append([sx_str('enum dest ' + name), [sx_str(e)]])
+            if STATE_OBJECTS and en is None:
+                # asked by State object (a nested State object only knows its local name) = asked by path name
+                if set(machine.get_triggers(machine.get_state(name))) != got:
+                    bad.append([sx_str('state object get_triggers ' + name), []])
             if en is not None:
                 # asked by Enum member (top-level or nested) = asked by path name (D40 fixed the lookup of
                 # nested members by their bare name)
